@@ -261,6 +261,9 @@ fn post_connack_case(bytes: &[u8]) {
                 Some(Exp::Invalid(class)) => {
                     if r != Res::InvalidPacket {
                         with(|w| w.violate("C08", format!("malformed-accepted/{class}/type={kind}/{}", r.name()), format!("malformed ({class}) bytes {} made poll return {}", crate::util::hex(bytes), r.name())));
+                        if class == "larger-than-rx-buffer" {
+                            with(|w| w.violate("C14", format!("inbound-larger-than-receive-buffer/{}", r.name()), format!("an inbound packet of {} bytes exceeds the {} byte receive buffer, poll returned {}", bytes.len(), cfg.rx_len, r.name())));
+                        }
                     }
                     let after = statuses(&conn);
                     let n_deliv1 = with(|w| w.delivered.len());
@@ -320,6 +323,9 @@ fn pre_connack_case(bytes: &[u8]) {
             Some(Exp::Invalid(class)) => {
                 if r != Res::InvalidPacket {
                     with(|w| w.violate("C08", format!("handshake-malformed-accepted/{class}/type={kind}/{}", r.name()), format!("malformed ({class}) handshake answer {}: connect returned {}", crate::util::hex(bytes), r.name())));
+                    if class == "larger-than-rx-buffer" {
+                        with(|w| w.violate("C14", format!("inbound-larger-than-receive-buffer/{}", r.name()), format!("an inbound packet exceeds the {} byte receive buffer during the handshake, connect returned {}", cfg.rx_len, r.name())));
+                    }
                 }
             }
             Some(Exp::BrokerDisconnect) => {
@@ -579,8 +585,43 @@ fn noncanonical_property_length(w: &mut World, pre: bool) -> Vec<u8> {
     out
 }
 
+/// A spec-valid QoS 0 PUBLISH (or, before CONNACK, any packet) whose total size is the receive
+/// buffer size plus d, d in -3..=6: the last ones that fit and the first ones that do not.
+fn receive_buffer_boundary(w: &mut World) -> Option<Vec<u8>> {
+    let rx = w.cfg.rx_len;
+    let d = w.tape.choose(10) as i64 - 3;
+    let total = (rx as i64 + d) as usize;
+    // total = 1 + len(varint(rl)) + rl
+    let rl = (1..=4usize).find_map(|vl| {
+        let rl = total.checked_sub(1 + vl)?;
+        let mut b = Vec::new();
+        codec::write_varint(rl as u32, &mut b);
+        (b.len() == vl).then_some(rl)
+    })?;
+    let topic = "in/b";
+    let payload_len = rl.checked_sub(2 + topic.len() + 1)?;
+    let p = Packet::Publish { dup: false, qos: 0, retain: w.tape.chance(1, 2), topic: topic.into(), id: None, props: vec![], payload: (0..payload_len).map(|i| (i % 251) as u8).collect() };
+    let raw = codec::encode(&p);
+    debug_assert_eq!(raw.len(), total);
+    w.probe(if total > rx { "inbound_just_over_rx_buffer" } else { "inbound_just_fits_rx_buffer" });
+    Some(raw)
+}
+
 pub fn bytes(kind: u8, extra: u64) {
     match kind {
+        3 => {
+            let pre = with(|w| w.tape.chance(1, 4));
+            let Some(mut stream) = with(receive_buffer_boundary) else { return };
+            if !pre && with(|w| w.tape.chance(1, 2)) {
+                // something valid behind it: must be untouched if the first one is rejected
+                let p = with(|w| gen_s2c(w, false));
+                let extra_raw = codec::encode(&p);
+                if extra_raw.len() <= with(|w| w.cfg.rx_len) {
+                    stream.extend(extra_raw);
+                }
+            }
+            if pre { pre_connack_case(&stream) } else { post_connack_case(&stream) }
+        }
         0 => {
             let pre = extra % 2 == 1;
             let b = enum_bytes(extra / 2);
